@@ -23,10 +23,11 @@ type ctxKey string
 const srvConnKey ctxKey = "srvconn"
 
 type Plan struct {
-	WaitCtx bool   // handler waits for its context to be cancelled (reports CtxMissing if that never happens)
-	Gated   bool   // handler waits for Release(tok) (or ctx.Done)
-	Outcome string // ok | err | panic:<kind>
-	release chan struct{}
+	WaitCtx    bool          // handler waits for its context to be cancelled (reports CtxMissing if that never happens)
+	ReactDelay time.Duration // how long the handler takes to return after its context was cancelled
+	Gated      bool          // handler waits for Release(tok) (or ctx.Done)
+	Outcome    string        // ok | err | panic:<kind>
+	release    chan struct{}
 	// streams
 	Step       chan struct{} // if non-nil, one receive per value
 	NoClose    bool          // keep the stream open until the context is cancelled (or Release)
@@ -68,6 +69,7 @@ type API struct {
 	PanicSub      func(ctx context.Context, tok int, kind string) (<-chan [2]int, error)
 	CallBack      func(ctx context.Context, tok int) (string, error)
 	CallBackPanic func(ctx context.Context, tok int, kind string) (string, error)
+	CallBackAfter func(ctx context.Context, tok int) (string, error)
 }
 
 // RevAPI is what the server calls back on the client.
@@ -286,6 +288,7 @@ func (h *H) body(ctx context.Context, tok int, method string) (int, error) {
 	if p.WaitCtx {
 		select {
 		case <-ctx.Done():
+			time.Sleep(p.ReactDelay)
 		case <-p.release:
 		case <-time.After(patience(2 * time.Second)):
 			h.w.Rec.Emit("CtxMissing", "call", tok)
@@ -314,7 +317,15 @@ func (h *H) Notify(ctx context.Context, tok int)             { h.body(ctx, tok, 
 
 func (h *H) Big(ctx context.Context, tok int, size int) (string, error) {
 	p, leave := h.enter(ctx, tok, "Big")
-	if p.Gated {
+	if p.WaitCtx {
+		select {
+		case <-ctx.Done():
+			time.Sleep(p.ReactDelay)
+		case <-p.release:
+		case <-time.After(patience(2 * time.Second)):
+			h.w.Rec.Emit("CtxMissing", "call", tok)
+		}
+	} else if p.Gated {
 		select {
 		case <-p.release:
 		case <-ctx.Done():
@@ -402,6 +413,32 @@ func (h *H) CallBack(ctx context.Context, tok int) (string, error) {
 	}
 	leave("val")
 	return who, nil
+}
+
+// CallBackAfter waits until its context is cancelled (the connection is gone) and then calls back into the client:
+// the reverse call must fail, not block.
+func (h *H) CallBackAfter(ctx context.Context, tok int) (string, error) {
+	p, leave := h.enter(ctx, tok, "CallBackAfter")
+	rc, ok := jsonrpc.ExtractReverseClient[RevAPI](ctx)
+	select {
+	case <-ctx.Done():
+		time.Sleep(p.ReactDelay)
+	case <-p.release:
+	case <-time.After(patience(2 * time.Second)):
+		h.w.Rec.Emit("CtxMissing", "call", tok)
+	}
+	if ok {
+		res := make(chan error, 1)
+		go func() { _, err := rc.Who(context.Background(), tok); res <- err }()
+		select {
+		case err := <-res:
+			h.w.Rec.Emit("RevCallEnd", "call", tok, "failed", err != nil)
+		case <-time.After(patience(2 * time.Second)):
+			h.w.Rec.Emit("RevCallEnd", "call", tok, "failed", false, "blocked", true)
+		}
+	}
+	leave("val")
+	return "after", nil
 }
 
 // CallBackPanic calls back into the client, then panics.
@@ -559,10 +596,10 @@ func (w *World) NewClient(o ClientOpts) (*Client, error) {
 	if o.NoPing {
 		opts = append(opts, jsonrpc.WithPingInterval(0), jsonrpc.WithTimeout(0))
 	}
-	if o.Ping > 0 {
+	if o.Ping > 0 && !o.NoPing {
 		opts = append(opts, jsonrpc.WithPingInterval(o.Ping))
 	}
-	if o.Timeout > 0 {
+	if o.Timeout > 0 && !o.NoPing {
 		opts = append(opts, jsonrpc.WithTimeout(o.Timeout))
 	}
 	if o.BackoffMin > 0 {
@@ -725,6 +762,8 @@ func (c *Client) Call(ctx context.Context, kind string, tok int, arg ...interfac
 	case "panicnotify":
 		err = c.API.PanicNotify(ctx, tok, arg[0].(string))
 		token = tok
+	case "callbackafter":
+		_, err = c.API.CallBackAfter(ctx, tok)
 	case "callbackpanic":
 		_, err = c.API.CallBackPanic(ctx, tok, arg[0].(string))
 	case "callback":
